@@ -456,23 +456,133 @@ def closure_failures(names, meta):
 class Check(PropertyCheck):
     prop = "C03"
     design_ref = "§5 C03"
-    level_text = "…"
-    level_note = "…"
-    technique = "Lean 4 proof (invariants over all input sequences of the HttpStream model) + per-stream trace correspondence with the real HttpLayer"
-    rule = "…"
-    budget = {"quick": 5000, "thorough": 200000}
-    time_budget = {"quick": 40, "thorough": 600}
-    fingerprints = []
-    trusted_base = []
+    level_text = ("Lean theorems requestheaders_first, request_at_most_once, responseheaders_before_response, "
+                  "never_response_and_error, unstreamed_request_before_responseheaders, closed_implies_outcome about a model "
+                  "of HttpStream (client_state × server_state, all 30 suspension points of its generator, Layer pause/"
+                  "replay semantics incl. check_killed's peek into the paused-event queue and queues left behind by "
+                  "escaping exceptions, check_body_size/check_invalid/check_killed/handle_protocol_error, CONNECT and 101 "
+                  "hand-off) for EVERY input history: any interleaving of HttpEvents, hook completions with any addon "
+                  "action (pass/kill/set response/stream), connection results and any body sizes/limits.  Proof = an "
+                  "inductive invariant over the control skeleton that is independent of the addon-controlled flow "
+                  "attributes, lifted to runs by induction, plus a trace monitor.  The model is tied to the real HttpLayer "
+                  "per stream: the recorded input sequence of every real HttpStream is replayed through the compiled "
+                  "model, which must emit the same commands call by call, accept every input under its event grammar, "
+                  "and agree on final state and on being settled after all connections closed.")
+    level_note = ("trusted: Lean kernel; hand-written model (validated differentially, ~0 mismatches on >10^5 scripts); the "
+                  "event grammar of Http1Server/Http1Client/HttpLayer is a hypothesis of the theorems (bad=false) that is "
+                  "checked on every real trace, not proved about a model of those classes; HTTP/1 only (no trailers; "
+                  "HTTP/2 multiplexing is C05); options websocket/rawtcp at their defaults; regular mode; runs in which an "
+                  "exception raised OUTSIDE HttpStream (Http1Server/HttpLayer/server assertions) abandons a suspended "
+                  "stream generator are judged by the direct oracle only, not compared with the model.")
+    technique = ("Lean 4 proof (inductive invariant over all input histories of the HttpStream model + trace monitor) "
+                 "+ per-stream trace correspondence with the real HttpLayer + direct oracle on hook traces")
+    rule = ("exchange skeletons (42: bodies by content-length/chunked/until-EOF, HEAD/204/304/100, pipelining, early "
+            "responses, websocket/101, CONNECT, malformed heads/bodies on either side, body-size options) × one fault "
+            "(client/server close, protocol error on either side, connect failure) at every step index × body-size "
+            "options × addon policy per hook and flow (pass/kill/set response/enable streaming, each optionally "
+            "intercepted and resumed at a later step or after everything closed) × immediate/deferred connects. "
+            "distinct = distinct (script, policy, defer, connect, options); non-trivial = at least one flow fired "
+            "requestheaders.")
+    budget = {"quick": 9000, "thorough": 400000}
+    time_budget = {"quick": 30, "thorough": 540}
+    fingerprints = ["mitmproxy.proxy.layers.http:HttpStream._handle_event",
+                    "mitmproxy.proxy.layers.http:HttpStream.state_wait_for_request_headers",
+                    "mitmproxy.proxy.layers.http:HttpStream.start_request_stream",
+                    "mitmproxy.proxy.layers.http:HttpStream.state_stream_request_body",
+                    "mitmproxy.proxy.layers.http:HttpStream.state_consume_request_body",
+                    "mitmproxy.proxy.layers.http:HttpStream.state_wait_for_response_headers",
+                    "mitmproxy.proxy.layers.http:HttpStream.start_response_stream",
+                    "mitmproxy.proxy.layers.http:HttpStream.state_stream_response_body",
+                    "mitmproxy.proxy.layers.http:HttpStream.state_consume_response_body",
+                    "mitmproxy.proxy.layers.http:HttpStream.send_response",
+                    "mitmproxy.proxy.layers.http:HttpStream.flow_done",
+                    "mitmproxy.proxy.layers.http:HttpStream.check_body_size",
+                    "mitmproxy.proxy.layers.http:HttpStream.check_invalid",
+                    "mitmproxy.proxy.layers.http:HttpStream.check_killed",
+                    "mitmproxy.proxy.layers.http:HttpStream.handle_protocol_error",
+                    "mitmproxy.proxy.layers.http:HttpStream.make_server_connection",
+                    "mitmproxy.proxy.layers.http:HttpStream.handle_connect",
+                    "mitmproxy.proxy.layers.http:HttpStream.handle_connect_regular",
+                    "mitmproxy.proxy.layers.http:HttpStream.handle_connect_finish",
+                    "mitmproxy.proxy.layers.http:HttpStream.state_errored",
+                    "mitmproxy.proxy.layers.http:HttpLayer.event_to_child",
+                    "mitmproxy.proxy.layers.http:HttpLayer.get_connection",
+                    "mitmproxy.proxy.layers.http._http1:Http1Connection.read_body",
+                    "mitmproxy.proxy.layers.http._http1:Http1Connection.wait",
+                    "mitmproxy.proxy.layers.http._http1:Http1Connection.mark_done",
+                    "mitmproxy.proxy.layers.http._http1:Http1Server.read_headers",
+                    "mitmproxy.proxy.layers.http._http1:Http1Server.send",
+                    "mitmproxy.proxy.layers.http._http1:Http1Client.read_headers",
+                    "mitmproxy.proxy.layers.http._http1:Http1Client.send",
+                    "mitmproxy.proxy.layer:Layer.handle_event",
+                    "mitmproxy.flow:Flow.kill"]
+    trusted_base = ["h11 body readers and mitmproxy.net.http.http1 head parsing (exercised, not modelled: the tie is at the "
+                    "HttpStream boundary)",
+                    "harness/common/world.py as the stand-in for proxy/server.py's command interpreter"]
+    assumptions = ["event grammar: request events of one stream arrive in Http1Server order (headers once; nothing but "
+                   "protocol errors after a protocol error), response events only after the request headers went upstream"]
     parallel = True
     has_model = True
 
+    # ---- generation ---------------------------------------------------------------------------
+    @staticmethod
+    def _case(name, steps, policy=None, defer=None, connect=None, opts=None):
+        return {"sk": name, "script": [list(x) for x in steps], "policy": policy or {}, "defer": defer or {},
+                "connect": connect or [], "opts": opts or {}}
+
+    def _random_case(self, rng):
+        name, steps = rng.pick(SKELETONS)
+        steps = [list(x) for x in steps]
+        conn = []
+        if rng.chance(0.7):
+            steps, conn = with_fault(steps, rng.pick(FAULTS), rng.randint(0, len(steps)))
+        if rng.chance(0.15):
+            steps, c2 = with_fault(steps, rng.pick(FAULTS), rng.randint(0, len(steps)))
+            conn = conn or c2
+        if rng.chance(0.2): conn = [rng.pick(["ok", "fail", "defer_ok", "defer_fail"]) for _ in range(2)]
+        policy, defer = {}, {}
+        for h, acts in HOOK_ACTIONS.items():
+            if rng.chance(0.5): policy[h] = [rng.pick(acts) if rng.chance(0.6) else "pass" for _ in range(3)]
+            if rng.chance(0.3): defer[h] = [int(rng.chance(0.6)) for _ in range(3)]
+        for _ in range(rng.randint(0, 3)): steps.insert(rng.randint(0, len(steps)), ["resume"])
+        if any(c.startswith("defer") for c in conn): steps.insert(rng.randint(0, len(steps)), ["connect"])
+        return self._case(name, steps, policy, defer, conn, rng.pick(OPTS))
+
     def generate(self, rng, tier):
         for name, steps in SKELETONS:
-            yield {"sk": name, "script": steps, "policy": {}, "defer": {}, "connect": [], "opts": {}}
+            yield self._case(name, steps)
+        # a fault at every step index of every skeleton (all body-size options in the thorough tier)
+        for name, steps in SKELETONS:
+            for fault in FAULTS:
+                for pos in range(len(steps) + 1):
+                    st, conn = with_fault([list(x) for x in steps], fault, pos)
+                    for opts in (OPTS if tier == "thorough" else [OPTS[0], rng.pick(OPTS[1:])]):
+                        yield self._case(name, st, connect=conn, opts=opts)
+                    if fault == ["connfail"]: break
+        # every single-hook policy, immediate and intercepted (resumed after everything closed)
+        for name, steps in SKELETONS:
+            for h, acts in HOOK_ACTIONS.items():
+                for a in acts:
+                    for d in (0, 1):
+                        if a == "pass" and not d: continue
+                        for opts in (OPTS if tier == "thorough" else [rng.pick(OPTS)]):
+                            yield self._case(name, steps, {h: [a, a]}, {h: [d, d]} if d else {}, opts=opts)
+        if tier == "thorough":
+            # policy × fault × position
+            for name, steps in SKELETONS:
+                for h, acts in HOOK_ACTIONS.items():
+                    for a in acts:
+                        for fault in FAULTS[:6]:
+                            for pos in range(len(steps) + 1):
+                                st, conn = with_fault([list(x) for x in steps], fault, pos)
+                                d = rng.randint(0, 1)
+                                yield self._case(name, st, {h: [a, a]}, {h: [d, d]} if d else {}, conn, rng.pick(OPTS))
+        while True:
+            yield self._random_case(rng)
 
     def impl(self, case):
         w, rec, flows = run_script(case)
+        self._last_obs = None
         out = {"flows": [], "streams": [], "crashes": [e[0] for e in w.errors], "open": len(w.transports),
                "pending": len(w.deferred_hooks)}
         for f, names in flows:
@@ -487,6 +597,7 @@ class Check(PropertyCheck):
                                    "connect": bool(getattr(s, "flow", None) and s.flow.request.method == "CONNECT"),
                                    "websocket": bool(getattr(s, "flow", None) and s.flow.websocket),
                                    "streamed_up": bool(getattr(s, "_v_streamed", False))})
+        self._last_obs = (case, out)
         return out
 
     def oracle(self, case, obs):
@@ -497,6 +608,51 @@ class Check(PropertyCheck):
             for f in lifecycle_failures(fl["hooks"], fl) + closure_failures(fl["hooks"], fl):
                 fails.append(f"flow {i} {fl['hooks']}: {f}")
         return fails
+
+    def classify(self, case, obs):
+        if not any("requestheaders" in f["hooks"] for f in obs["flows"]): return None
+        return json.dumps([case["script"], case["policy"], case["defer"], case["connect"], case["opts"]], sort_keys=True)
+
+    def branches(self, case, obs):
+        out = ["sk:" + str(case.get("sk"))]
+        for f in obs["flows"]:
+            t = f["hooks"]
+            out.append("outcome:" + ("response" if "response" in t else "error" if "error" in t else "none"))
+            if f["connect"]: out.append("flow:connect")
+            if f["upgraded"]: out.append("flow:upgraded")
+            if f["req_streamed"]: out.append("flow:request-streamed")
+            if "request" in t and "response" in t and t.index("response") < t.index("request"): out.append("order:response-before-request")
+        if len(obs["flows"]) > 1: out.append("pipelined")
+        if obs["crashes"]: out.append("exception-escaped")
+        if any(v and any(v) for v in case["defer"].values()): out.append("intercepted")
+        if case["opts"]: out.append("body-size-options")
+        for st in obs["streams"]:
+            for inp, o, _ in st["log"]:
+                if inp.startswith("hc ") and not inp.endswith(" pass"): out.append("action:" + inp.split()[2]); break
+        return sorted(set(out))
+
+    def neighbours(self, case, rng):
+        steps = case["script"]
+        for pos in range(len(steps) + 1):
+            for fault in FAULTS[:6]:
+                c = dict(case); c["script"] = steps[:pos] + [fault] + steps[pos:]
+                yield c
+        for h, acts in HOOK_ACTIONS.items():
+            for a in acts:
+                for d in (0, 1):
+                    c = dict(case); c["policy"] = dict(case["policy"], **{h: [a, a, a]}); c["defer"] = dict(case["defer"], **{h: [d, d, d]})
+                    yield c
+        for opts in OPTS:
+            c = dict(case); c["opts"] = opts
+            yield c
+
+    def exhaustive(self, tier):
+        for name, steps in SKELETONS:
+            for fault in FAULTS:
+                for pos in range(len(steps) + 1):
+                    st, conn = with_fault([list(x) for x in steps], fault, pos)
+                    for opts in OPTS:
+                        yield self._case(name, st, connect=conn, opts=opts)
 
     # ---- model tie: every real HttpStream's input sequence is replayed through the Lean model -----------------
     def model_lines(self, case):
